@@ -117,6 +117,7 @@ func c02Readers() []c02Reader {
 	plain := func(b []byte) io.Reader { return lab.PlainReader{R: bytes.NewReader(b)} }
 	onebyte := func(b []byte) io.Reader { return lab.OneByteReader{R: bytes.NewReader(b)} }
 	buffered := func(b []byte) io.Reader { return bufio.NewReaderSize(bytes.NewReader(b), 64) }
+	stutter := func(b []byte) io.Reader { return &lab.StutterReader{B: b} } // (0,nil) calls, tiny pieces, data+EOF
 	dataErr := func(b []byte) io.Reader { return iotest.DataErrReader(lab.PlainReader{R: bytes.NewReader(b)}) } // last byte comes with io.EOF
 	inspect := func(validate bool) func([]byte) ([]refcar.Block, bool, error) {
 		return func(in []byte) ([]refcar.Block, bool, error) {
@@ -138,6 +139,8 @@ func c02Readers() []c02Reader {
 		{name: "v2.BlockReader.Next(bufio.Reader)", hashes: true, returns: true, run: next(buffered)},
 		{name: "v2.BlockReader.Next(data+EOF reader)", hashes: true, returns: true, run: next(dataErr)},
 		{name: "v2.BlockReader.SkipNext(data+EOF reader)", run: skip(dataErr)},
+		{name: "v2.BlockReader.Next(stutter reader)", hashes: true, returns: true, run: next(stutter)},
+		{name: "v2.BlockReader.SkipNext(stutter reader)", run: skip(stutter)},
 		{name: "v2.BlockReader.SkipNext(bufio.Reader)", run: skip(buffered)},
 		{name: "v2.BlockReader.SkipNext(bytes.Reader)", run: skip(seekable)},
 		{name: "v2.BlockReader.SkipNext(plain)", run: skip(plain)},
